@@ -177,6 +177,17 @@ def _proj_simplify(e):
     return e
 
 
+def _ground_eq(d):
+    """`A == B` / `A != B` for two struct literals with constant fields: structural comparison."""
+    if not (isinstance(d, tuple) and len(d) == 4 and d[0] == "bin" and d[1] in ("Eq", "Ne")):
+        return None
+    a, c = strip_refs(d[2]), strip_refs(d[3])
+    if a[0] == "agg" and c[0] == "agg" and a[1] == c[1] and len(a[3]) == len(c[3]) and all(x[0] == "const" for x in a[3] + c[3]):
+        eq = tuple(x[1] for x in a[3]) == tuple(x[1] for x in c[3])
+        return eq if d[1] == "Eq" else not eq
+    return None
+
+
 def _table_takes(b, ex, ev, sp, text, rets, ref):
     """Rights removed under move text `text` by a table-driven loop
     (`for (square, right) in [("a8", BlackQueenSide), ..] { if player_move.contains(square) { take_away(right) } }`):
@@ -207,28 +218,60 @@ def _table_takes(b, ex, ev, sp, text, rets, ref):
                       and strip_refs(ex.switch_discr(x)[1]) == strip_refs(item[1][1] if item[0] == "field" else item)}
         if any(x not in nxt_blocks for x, _s in exits):
             continue
-        conds = [d for d in _true_conditions(b, ex, loc[0]) if item in set(subexprs(d))]
-        other = [d for d in _true_conditions(b, ex, loc[0]) if item not in set(subexprs(d)) and any(b.edge_dominates((s2, t2), loc[0]) for s2 in loops[h] for t2 in b.succ.get(s2, []) if s2 != h and t2 in loops[h] and False)]
+        some_t = None
+        for x in nxt_blocks:
+            tt = b.term(x)
+            for v, tg in tt["cases"]:
+                if v == 1:
+                    some_t = tg
+            if some_t is None and tt["otherwise"] in loops[h]:
+                some_t = tt["otherwise"]
+        if some_t is None:
+            continue
+        env = {("arg", sp): text, ("deref", ("arg", sp)): text}
+        # the squares the text names, as the applier parses them (arguments of its move_piece call)
+        sq_sub = {}
+        mpc = [bb for bb, t in b.iter_calls(callee=MOVE)]
+        if mpc and len(text) >= 4:
+            a_ = ex.call_args(sorted(mpc)[0])
+            for e_, name in ((strip_refs(a_[1]), text[0:2]), (strip_refs(a_[2]), text[2:4])):
+                if e_[0] not in ("agg", "const"):
+                    r_, c_ = chess.sq(name)
+                    sq_sub[e_] = ("agg", "board::Point", None, (("const", r_), ("const", c_)))
         for el in elems:
             el = strip_refs(el)
             if not (el[0] == "agg" and el[1] == "tuple"):
                 continue
-            ok = True
-            for d in conds:
+            # one iteration with the element substituted: every switch of the loop body whose condition can
+            # be evaluated for this element and this text keeps only the edge taken; the removal is certain
+            # when the iteration cannot get back to the loop head without passing the call
+            ref_e = set(ref)
+            for x in loops[h]:
+                if x in nxt_blocks or b.term(x)["k"] != "switch":
+                    continue
+                d = ex.switch_discr(x)
                 try:
-                    v = eval_expr(_proj_simplify(subst(d, {item: el})), {("arg", sp): text, ("deref", ("arg", sp)): text})
+                    m_ = dict(sq_sub)
+                    m_[item] = el
+                    d2 = _proj_simplify(subst(d, m_))
+                    g = _ground_eq(d2)
+                    v = g if g is not None else eval_expr(d2, env)
                 except (Unknown, TypeError, ValueError, IndexError, KeyError):
-                    ok = False
-                    break
-                if not v:
-                    ok = False
-                    break
-            # conditions inside the loop that do not mention the element would make the removal depend on
-            # something else: only the element guards may stand between the loop head and the call
-            for d, vals, excl, s2, t2 in dominating_facts(b, ex, loc[0]):
-                if s2 in loops[h] and s2 not in nxt_blocks and item not in set(subexprs(d)):
-                    ok = False
-            if ok:
+                    continue
+                if isinstance(v, bool):
+                    v = int(v)
+                if not isinstance(v, int):
+                    continue
+                tt = b.term(x)
+                take = tt["otherwise"]
+                for val, tg in tt["cases"]:
+                    if val == v:
+                        take = tg
+                for tg in b.succ.get(x, []):
+                    if tg != take:
+                        ref_e.add((x, tg))
+            certain = loc[0] in b.reach_from(some_t, (), ref_e) and not b.reaches(some_t, h, removed_nodes={loc[0]}, removed_edges=ref_e)
+            if certain:
                 r_e = strip_refs(el[3][int(comp)])
                 if r_e[0] == "agg":
                     out.add(r_e[2])
